@@ -26,9 +26,12 @@
 //
 // NOT modelled (stated in notes/C17.md): the starting thread itself (what it does before the `go` happens
 // before, what it does after wg.Wait() happens after — fork/join is outside the lockset discipline, so its
-// own accesses are left to the race detector scenarios); element-wise disjoint writes of a slice are seen
-// as writes of the slice; mutation through method calls of a captured value; a literal reached twice at
-// the same level is one thread site.
+// own accesses are left to the race detector scenarios); an element assignment of a variable declared as a
+// slice is a read of the slice (disjoint elements are the rule); mutation through method calls of a captured
+// value; a literal reached twice at the same level from one root is one thread site.
+//
+// A variable declared inside the loop(s) in which the thread is started exists once per iteration: it moves
+// to the level of the started thread.
 package main
 
 import (
@@ -42,6 +45,8 @@ type lvar struct {
 	key   string // field / mutex name: name@file:line/L<level> in <root> (every root is an invocation of its own)
 	level int
 	owner *threadWalk
+	depth int  // loops open in the declaring thread at the declaration (a variable declared inside a loop exists once per iteration)
+	slice bool // declared as a slice: element assignments are not writes of the variable (disjoint elements are the rule)
 }
 
 type threadWalk struct{ level int }
@@ -136,8 +141,60 @@ func (b *builder) locDeclare(id *ast.Ident, fc *fnCtx) {
 	if id.Obj.Pos() != id.Pos() {
 		return // `:=` re-using a variable of the same scope
 	}
-	lc.env[id.Obj] = &lvar{key: fmt.Sprintf("%s@%s/L%d in %s", id.Name, b.pos(id), lc.th.level, lc.root), level: lc.th.level, owner: lc.th}
+	lc.env[id.Obj] = &lvar{key: fmt.Sprintf("%s@%s/L%d in %s", id.Name, b.pos(id), lc.th.level, lc.root), level: lc.th.level, owner: lc.th,
+		depth: fc.loopDepth + len(fc.breaks), slice: declaredSlice(id)}
 	delete(lc.refp, id.Obj)
+}
+
+// locDeclareIter records the key / value variable of a range statement: one instance per iteration.
+func (b *builder) locDeclareIter(id *ast.Ident, fc *fnCtx) {
+	b.locDeclare(id, fc)
+	if fc.lc != nil && id != nil && id.Obj != nil {
+		if lv := fc.lc.env[id.Obj]; lv != nil && lv.owner == fc.lc.th {
+			lv.depth = fc.loopDepth + len(fc.breaks) + 1
+		}
+	}
+}
+
+// declaredSlice: the declaration of the identifier shows a slice (make([]T, ..), []T{..}, var x []T, a parameter []T).
+func declaredSlice(id *ast.Ident) bool {
+	isSliceType := func(t ast.Expr) bool {
+		a, ok := t.(*ast.ArrayType)
+		return ok && a.Len == nil
+	}
+	isSliceValue := func(e ast.Expr) bool {
+		switch x := e.(type) {
+		case *ast.CompositeLit:
+			return x.Type != nil && isSliceType(x.Type)
+		case *ast.CallExpr:
+			if f, ok := x.Fun.(*ast.Ident); ok && f.Name == "make" && len(x.Args) > 0 {
+				return isSliceType(x.Args[0])
+			}
+		}
+		return false
+	}
+	switch d := id.Obj.Decl.(type) {
+	case *ast.Field:
+		return isSliceType(d.Type)
+	case *ast.ValueSpec:
+		if d.Type != nil {
+			return isSliceType(d.Type)
+		}
+		for i, n := range d.Names {
+			if n.Name == id.Name && i < len(d.Values) {
+				return isSliceValue(d.Values[i])
+			}
+		}
+	case *ast.AssignStmt:
+		if len(d.Lhs) == len(d.Rhs) {
+			for i, l := range d.Lhs {
+				if li, ok := l.(*ast.Ident); ok && li.Name == id.Name {
+					return isSliceValue(d.Rhs[i])
+				}
+			}
+		}
+	}
+	return false
 }
 
 // params lists the parameter names of a signature in order (nil for unnamed ones) with their types.
@@ -257,13 +314,30 @@ func (b *builder) locSpawn(name string, ft *ast.FuncType, body *ast.BlockStmt, a
 		site.recv = map[string]bool{recvName(b.methods[method]): true}
 		site.stack = append(site.stack, method)
 	}
+	// a variable that the starting thread declares inside the loop(s) in which it starts the thread exists once per
+	// iteration: for that variable the new thread exists once (the variable moves to the level of the thread)
+	if ds := fc.loopDepth + len(fc.breaks); ds > 0 {
+		for obj, lv := range site.env {
+			if lv.owner == lc.th && lv.depth == ds && lv.level < level {
+				cp := *lv
+				cp.level = level
+				cp.key = strings.Replace(lv.key, fmt.Sprintf("/L%d in ", lv.level), fmt.Sprintf("/L%d in ", level), 1)
+				site.env[obj] = &cp
+			}
+		}
+	}
 	b.locBind(ft, args, lc, site.env, site.refp)
 	b.loc.sites = append(b.loc.sites, site)
 }
 
-// locAccess emits an access of a variable declared by an ancestor of the thread being walked.
-// direct: the identifier itself is read / assigned (not an element, member or pointee of it).
 func (b *builder) locAccess(id *ast.Ident, write, direct bool, frontier []int, fc *fnCtx) []int {
+	return b.locAccessE(id, write, direct, false, frontier, fc)
+}
+
+// locAccessE emits an access of a variable declared by an ancestor of the thread being walked.
+// direct: the identifier itself is read / assigned (not an element, member or pointee of it); elem: the
+// target is id[i] (an element assignment of a variable declared as a slice counts as a read of the slice).
+func (b *builder) locAccessE(id *ast.Ident, write, direct, elem bool, frontier []int, fc *fnCtx) []int {
 	lc := fc.lc
 	if lc == nil || id.Obj == nil {
 		return frontier
@@ -274,6 +348,9 @@ func (b *builder) locAccess(id *ast.Ident, write, direct bool, frontier []int, f
 	}
 	if write && direct && lc.refp[id.Obj] {
 		return frontier // p = ...: the parameter, not what it refers to
+	}
+	if write && !direct && lv.slice && elem {
+		write = false // s[i] = ...: an element, not the slice
 	}
 	if lc.target < 0 || lv.level != lc.target {
 		return frontier
